@@ -832,7 +832,7 @@ theorem compile_ext : ∀ fuel : Nat,
     refine ⟨?_, ?_, ?_, ?_, ?_, ?_, ?_⟩
     · intro ps cur e r h
       cases e with
-      | lit => simp only [parseExpr] at h; cases h; exact Ext.refl _
+      | lit v => simp only [parseExpr] at h; cases h; exact Ext.refl _
       | ident x => simp only [parseExpr] at h; cases h; exact Ext.refl _
       | call f args =>
         simp only [parseExpr] at h
@@ -845,6 +845,11 @@ theorem compile_ext : ∀ fuel : Nat,
             cases h
             exact (j1 h1).trans (j2 h2)
       | tup es =>
+        simp only [parseExpr] at h
+        split at h
+        · cases h
+        · rename_i h1; cases h; exact j2 h1
+      | arr es =>
         simp only [parseExpr] at h
         split at h
         · cases h
@@ -887,7 +892,7 @@ theorem compile_ext : ∀ fuel : Nat,
             · rename_i h2; cases h; exact (j1 h1).trans (j3 h2)
     · intro ps cur e r h
       cases e with
-      | lit => simp only [compileExpr] at h; cases h; exact Ext.refl _
+      | lit v => simp only [compileExpr] at h; cases h; exact Ext.refl _
       | val i => simp only [compileExpr] at h; cases h
       | bcall nm args => simp only [compileExpr] at h; cases h
       | ident x => simp only [compileExpr] at h; obtain ⟨e', c'⟩ := r; exact compileIdent_ext h
@@ -897,6 +902,11 @@ theorem compile_ext : ∀ fuel : Nat,
         · cases h
         · rename_i h1; cases h; exact (requireForwards_ext h1).trans (addAnonymousFunc_ext _ _)
       | tup es =>
+        simp only [compileExpr] at h
+        split at h
+        · cases h
+        · rename_i h1; cases h; exact j5 h1
+      | arr es =>
         simp only [compileExpr] at h
         split at h
         · cases h
